@@ -566,6 +566,11 @@ pub struct CPlan {
     pub ep_read: CutP,
     pub ep_spurious: u64,
     pub read_err_at: Option<u64>,
+    /// minor version written into every record header of the flight (0 = as built: 3.1 from
+    /// rustls, 3.3 from the builder); 3.0 to 3.3 are all legitimate there (RFC 5246 E.1) and
+    /// say nothing about the hello inside
+    #[serde(default)]
+    pub record_minor: Option<u8>,
 }
 
 impl Scenario for ClientHello {
@@ -652,6 +657,7 @@ impl Scenario for ClientHello {
             ep_read: CutP::draw(&mut rng, 1500),
             ep_spurious: if rng.chance(1, 3) { 2 + rng.below(5) } else { 0 },
             read_err_at: if rng.chance(1, 12) { Some(rng.below(600)) } else { None },
+            record_minor: if rng.chance(1, 4) { Some(rng.below(4) as u8) } else { None },
         };
         to_plan(&plan)
     }
@@ -817,6 +823,13 @@ async fn ch_run(plan: CPlan) -> CObs {
             }
         },
     };
+    if let Some(minor) = plan.record_minor {
+        let mut pos = 0;
+        while pos + 5 <= wire.len() && wire[pos] == 0x16 {
+            wire[pos + 2] = minor;
+            pos += 5 + u16::from_be_bytes([wire[pos + 3], wire[pos + 4]]) as usize;
+        }
+    }
     for m in &plan.mutations {
         mutate(&mut wire, m);
     }
